@@ -163,5 +163,169 @@ pub fn probe(ctx: &mut Ctx) {
     ctx.sample(|| "capacity probe: random history (with failing operations) in a manager of 30..99 slots, drop all, gc, fill until OutOfMemory: stored == capacity".into());
 }
 
+/// Capacity probe for LARGE stores (> 65536 slots: the node store hands out pre-allocated
+/// chunks of 64Ki slots to threads and takes the unused rest back when a thread's session
+/// ends). Sessions that allocate and free on the same thread inside one `with_manager_shared`
+/// closure, then fill: cubes first, then functions that need exactly one new node each, until
+/// nothing fits any more. Every slot must then hold a node: stored == capacity.
+fn probe_large_kind<K: BoolKind>(ctx: &mut Ctx, rng: &mut crate::rng::Rng)
+where
+    for<'id> MgrOf<'id, K>: HasWorkers,
+    for<'x> INodeOfFunc<'x, K::F>: HasLevel,
+{
+    use oxidd::util::AllocResult;
+    let n = 22u32;
+    let cap = rng.range(66_000, 150_000);
+    let mref = K::new_manager(cap, 1 << 14, 1);
+    mref.with_manager_exclusive(|m| m.add_vars(n));
+    let label = format!("c05probe-large kind={} cap={cap}", K::NAME);
+    println!("@@{{\"t\":\"case\",\"case\":{}}}", crate::ctx::json_str(&label));
+    // a cube over the variables 1..n (variable 0 stays unused: it is the top variable of the one-node fillers)
+    fn cube<K: BoolKind>(m: &MgrOf<'_, K>, bits: u64, n: u32) -> AllocResult<K::F> {
+        let mut c = K::F::t(m);
+        for v in (1..n).rev() {
+            let l = if (bits >> v) & 1 == 1 { K::F::var(m, v)? } else { K::F::not_var(m, v)? };
+            c = l.and(&c)?;
+        }
+        Ok(c)
+    }
+    // sessions: allocate from a fresh chunk, free on the same thread, some with a gc inside the session
+    let sessions = if std::env::var("VH_NOSESS").is_ok() { 0 } else { rng.range(2, 6) };
+    for s in 0..sessions {
+        let cubes = rng.range(20, 400);
+        let gc_inside = s % 2 == 0;
+        let seeds: Vec<u64> = (0..cubes).map(|_| rng.next()).collect();
+        mref.with_manager_shared(|m| {
+            let mut tmp = Vec::new();
+            let mut f = K::F::f(m);
+            for &b in &seeds {
+                if let Ok(c) = cube::<K>(m, b, n) {
+                    if let Ok(g) = f.or(&c) {
+                        f = g;
+                    }
+                    tmp.push(c);
+                }
+            }
+            drop(tmp);
+            drop(f);
+            if gc_inside {
+                m.gc();
+            }
+        });
+        ctx.count("large_probe_sessions", 1);
+    }
+    let left = mref.with_manager_exclusive(|m| {
+        m.gc();
+        m.num_inner_nodes()
+    });
+    let floor = if K::SEM == Sem::ZeroSup { n as usize } else { 0 };
+    ctx.check(left == floor, &format!("{}:probe-large:nodes-left-after-sessions", K::NAME), || format!("{label}: {left}"));
+    // fill, phase A: union of random cubes; keep every intermediate union (distinct functions below variable 0)
+    let mut keep: Vec<K::F> = Vec::new();
+    let mut ooms = 0u32;
+    // the top variable of the one-node fillers is created first and kept alive to the end
+    let x0 = mref.with_manager_shared(|m| K::F::var(m, 0).unwrap());
+    for _round in 0..4 {
+        let seeds: Vec<u64> = (0..40_000).map(|_| rng.next()).collect();
+        let full = mref.with_manager_shared(|m| {
+            let mut f = keep.last().cloned().unwrap_or_else(|| K::F::f(m));
+            for &b in &seeds {
+                let Ok(c) = cube::<K>(m, b, n) else { return true };
+                let Ok(g) = f.or(&c) else { return true };
+                f = g;
+                keep.push(f.clone());
+            }
+            false
+        });
+        if full {
+            ooms += 1;
+            break;
+        }
+    }
+    // phase B: ite(x0, p, q) for kept p != q needs exactly one new node (x0 is above everything else)
+    let mut stable = 0;
+    let mut last = usize::MAX;
+    let mut pair = 0usize;
+    let base = keep.len(); // operands of the fillers: the functions of phase A only
+    let mut fillers: Vec<K::F> = Vec::new();
+    while stable < 4 && base > 2 {
+        // dead nodes of failed operations; under the exclusive lock no background collection can be
+        // in flight (gc() returns at once when another collection is running)
+        mref.with_manager_exclusive(|m| m.gc());
+        mref.with_manager_shared(|m| {
+            loop {
+                let (i, j) = (pair % base, (pair / base + 1 + pair) % base);
+                pair += 1;
+                if i == j {
+                    continue;
+                }
+                match x0.ite(&keep[i], &keep[j]) {
+                    Ok(f) => fillers.push(f),
+                    Err(_) => {
+                        ooms += 1;
+                        return;
+                    }
+                }
+                if pair > 4_000_000 {
+                    return;
+                }
+            }
+        });
+        let stored = mref.with_manager_exclusive(|m| {
+            m.gc();
+            m.num_inner_nodes()
+        });
+        if std::env::var("VH_TRACE").is_ok() {
+            eprintln!("phase B round: stored {stored} cap {cap} keep {} fillers {} pair {pair} ooms {ooms}", keep.len(), fillers.len());
+        }
+        if stored == cap {
+            break;
+        }
+        // An OutOfMemory while the background collector (triggered at 95 % occupancy) is still
+        // sweeping is legitimate: the slots it frees become available when it is done. Only a
+        // store whose LIVE node count stays below its capacity over several attempts, each
+        // preceded by a collection under the exclusive lock, has lost slots.
+        std::thread::sleep(std::time::Duration::from_millis(20));
+        if stored == last {
+            stable += 1;
+        } else {
+            stable = 0;
+            last = stored;
+        }
+    }
+    ctx.eval();
+    let stored = mref.with_manager_exclusive(|m| m.num_inner_nodes());
+    // the ZBDD variable constructor itself needs nodes (don't-care chain), so the last few slots may stay empty there
+    let slack = if K::SEM == Sem::ZeroSup { n as usize } else { 0 };
+    if ooms == 0 {
+        ctx.violation(&format!("{}:probe-large:never-ran-out-of-nodes", K::NAME), format!("{label}: {stored} stored"));
+    } else if stored + slack < cap || stored > cap {
+        ctx.violation(
+            &format!("{}:probe-large:slots-not-conserved", K::NAME),
+            format!("{label}: after {sessions} allocate-and-free sessions the store holds at most {stored} nodes, capacity {cap}"),
+        );
+    } else {
+        ctx.distinct((K::NAME, "large-probe", cap));
+    }
+    ctx.count("large_probes", 1);
+    drop(fillers);
+    drop(keep);
+    drop(x0);
+}
+
+pub fn probe_large(ctx: &mut Ctx) {
+    let mut rng = ctx.rng(0xC05_1A);
+    let n = ctx.by_tier(1, 6);
+    for i in 0..n {
+        // (the Boolean `ite` of ZBDDs needs more than one node, so the exact fill is done with BDDs and
+        // BCDDs only; the node store is the same code for all kinds)
+        match (i + ctx.shard) % 2 {
+            0 => probe_large_kind::<Bdd>(ctx, &mut rng),
+            _ => probe_large_kind::<Bcdd>(ctx, &mut rng),
+        }
+    }
+    ctx.sample(|| "large capacity probe: 66000..150000 slots (chunked pre-allocation), allocate-and-free sessions with and without gc inside the session, fill with cubes and one-node functions until nothing fits: stored == capacity".into());
+}
+
 #[allow(unused)]
 fn _t<F: BooleanFunction>() {}
